@@ -646,13 +646,17 @@ func (w *c12World) exec(i int, op *c12Op) {
 			v = w.value(op.V)
 		}
 		form := op.F
+		zeroRV := false
 		if v == nil && form == 2 {
-			form = 1
+			// nil has no addressable form: pass the zero reflect.Value instead, which stands for nil too
+			form, zeroRV = 1, true
 		}
 		var rv reflect.Value
 		switch form {
 		case 1:
-			if v == nil {
+			if zeroRV {
+				rv = reflect.Value{}
+			} else if v == nil {
 				rv = env.NilValue
 			} else {
 				rv = reflect.ValueOf(v)
